@@ -18,11 +18,13 @@ VARIABLES kind, x, y, a, fill, done
 vars == <<kind, x, y, a, fill, done>>
 
 X4  == <<Q(0, 1), Q(1, 1), Q(2, 1), Q(4, 1)>>
-X3  == <<Q(-1, 1), Q(1, 1), Q(3, 2)>>
+X3  == <<Q(-1, 1), Q(1, 1), Q(2, 1)>>
 X3b == <<Q(0, 1), Q(2, 1), Q(3, 1)>>
-X5  == <<Q(-2, 1), Q(-1, 1), Q(0, 1), Q(2, 1), Q(6, 1)>>
+X5  == <<Q(-3, 1), Q(0, 1), Q(1, 1), Q(3, 1), Q(9, 1)>>
 XU  == IF Wide THEN {X4, X3, X5} ELSE {X4, X3}
-YV  == IF Wide THEN {NaNC, Q(0, 1), Q(3, 1), Q(-1, 2), Q(7, 4)} ELSE {NaNC, Q(0, 1), Q(3, 1), Q(-1, 2)}
+\* (the differences between any two knots of a vector of XU are 2^k, 3 * 2^k or 9 * 2^k and the values multiples
+\* of 9 / 4, so that binary floating point computes every chord without rounding - the law itself is exact anyway)
+YV  == IF Wide THEN {NaNC, Q(0, 1), Q(9, 1), Q(-9, 2), Q(27, 4)} ELSE {NaNC, Q(0, 1), Q(9, 1), Q(-9, 2)}
 AV  == {NaNC} \cup {Q(k, 2) : k \in (IF Wide THEN -5..13 ELSE -3..10)}
 AVseq == <<NaNC>> \o [i \in 1..19 |-> Q(i - 6, 2)]
 
@@ -36,7 +38,8 @@ APlain == {C(Q(1, 2)), C(Q(5, 1)), C(NaNC),
            M(<<<<Q(1, 2), Q(1, 1)>>, <<Q(2, 1), NaNC>>>>), M(<<<<Q(1, 1)>>, <<Q(3, 1)>>>>)}
 S(t, v) == [k |-> "s", t |-> t, v |-> v]
 ADated == {S(<<1, 2>>, <<Q(1, 2), Q(5, 2)>>), S(<<2, 5>>, <<Q(1, 1), Q(1, 1)>>), S(<<2>>, <<Q(-3, 1)>>),
-           [k |-> "f", t |-> <<2, 3>>, c |-> <<"p", "q">>, v |-> <<<<Q(1, 2), Q(5, 1)>>, <<Q(1, 1), Q(1, 1)>>>>]}
+           [k |-> "f", t |-> <<2, 3>>, c |-> <<"p", "q">>, v |-> <<<<Q(1, 2), Q(5, 1)>>, <<Q(1, 1), Q(1, 1)>>>>],
+           [k |-> "f", t |-> <<1, 2>>, c |-> <<"p">>, v |-> <<<<Q(1, 2)>>, <<Q(5, 1)>>>>]}
 Fr(r1, r2) == [k |-> "f", t |-> <<1, 2>>, c |-> X3, v |-> <<r1, r2>>]
 
 InitPt    == kind = "pt" /\ \E xx \in XU : x = V(xx) /\ \E yy \in [1..Len(xx) -> YV] : y = V(yy)
@@ -55,7 +58,8 @@ Init == /\ \/ "pt" \in Kinds /\ InitPt
 
 Want == Interp(a, y, x, fill)
 Eval == done = FALSE /\ done' = TRUE /\ UNCHANGED <<kind, x, y, a, fill>>
-EvalGen == Eval /\ PrintT(ToJson([kind |-> kind, x |-> x, y |-> y, a |-> a, fill |-> fill, want |-> Want]))
+EvalGen == Eval /\ PrintT(ToJson([kind |-> kind, x |-> x, y |-> y, a |-> a, fill |-> fill, want |-> Want,
+                                  exact |-> FloatExact(a, y, x, fill)]))
 
 \* ---- one curve, one point ---------------------------------------------------------------------
 IsPt == kind = "pt" /\ done          \* the clauses are examined once per case, in its done-state
@@ -116,10 +120,10 @@ FrameIsMatrix == (done /\ kind = "frame" /\ a.k \in {"c", "v", "m"}) =>
 \* dated points: one answer per date of the points; a date the values do not have gives NaN
 FrameDated == (done /\ kind = "frame" /\ a.k \in {"s", "f"}) =>
     LET w == Want IN
-    /\ w.t = a.t /\ w.k = a.k
+    /\ w.t = a.t /\ w.k = AsPoints(a).k
     /\ \A i \in 1..Len(a.t) : a.t[i] \notin TimesOf(y) =>
-            (IF a.k = "s" THEN IsNaN(w.v[i]) ELSE \A j \in 1..Len(w.v[i]) : IsNaN(w.v[i][j]))
+            (IF w.k = "s" THEN IsNaN(w.v[i]) ELSE \A j \in 1..Len(w.v[i]) : IsNaN(w.v[i][j]))
     /\ \A i \in 1..Len(a.t) : a.t[i] \in TimesOf(y) =>
             LET r == PosOf(y, a.t[i]) IN
-            IF a.k = "s" THEN w.v[i] = One(r, a.v[i]) ELSE \A j \in 1..Len(w.v[i]) : w.v[i][j] = One(r, a.v[i][j])
+            IF w.k = "s" THEN w.v[i] = One(r, AsPoints(a).v[i]) ELSE \A j \in 1..Len(w.v[i]) : w.v[i][j] = One(r, a.v[i][j])
 =============================================================================
